@@ -12,11 +12,6 @@ validation or of the up-to-date test in the source changes `Gen.lean` and re-run
 namespace Cppcms.C10
 open Cppcms Cppcms.C07
 
-theorem reqStore_eq (k v : Bytes) (trigs : List Key) (d : Time) :
-    reqStore k v trigs d =
-      ([3, (k ++ v ++ trigBytes (sortSet trigs)).length % u32, 0, 0, toU64 d % u32 % u32, toU64 d / u32 % u32,
-        k.length % u32, v.length % u32, (trigBytes (sortSet trigs)).length % u32, 0], k ++ v ++ trigBytes (sortSet trigs)) := rfl
-
 theorem ofI64_toU64 (d : Int) (h : -9223372036854775808 ≤ d ∧ d < 9223372036854775808) : ofI64 (toU64 d) = d := by
   unfold ofI64 toU64
   omega
@@ -25,22 +20,37 @@ theorem toU64_lt (d : Int) : toU64 d < 18446744073709551616 := by
 theorem join64 (n : Nat) (h : n < 18446744073709551616) : n % u32 % u32 + u32 * (n / u32 % u32) = n := by
   unfold u32; omega
 
+/-- the fields `session::store` reads from the header `tcp_cache::store` built (whatever the layout) -/
+theorem reqStore_fields (k v : Bytes) (trigs : List Key) (d : Time)
+    (hsz : k.length + v.length + (trigBytes (sortSet trigs)).length < 4294967296) :
+    (reqStore k v trigs d).2 = k ++ v ++ trigBytes (sortSet trigs) ∧
+    (reqStore k v trigs d).1.get Gen.wOpcode = Gen.opStore ∧
+    (reqStore k v trigs d).1.get Gen.wSize = (k ++ v ++ trigBytes (sortSet trigs)).length ∧
+    (reqStore k v trigs d).1.get Gen.wStoreKeyLen = k.length ∧
+    (reqStore k v trigs d).1.get Gen.wStoreDataLen = v.length ∧
+    (reqStore k v trigs d).1.get Gen.wStoreTriggersLen = (trigBytes (sortSet trigs)).length ∧
+    (reqStore k v trigs d).1.get64 Gen.wStoreTimeout = toU64 d := by
+  have hk : k.length % 4294967296 = k.length := Nat.mod_eq_of_lt (by omega)
+  have hv : v.length % 4294967296 = v.length := Nat.mod_eq_of_lt (by omega)
+  have ht : (trigBytes (sortSet trigs)).length % 4294967296 = (trigBytes (sortSet trigs)).length := Nat.mod_eq_of_lt (by omega)
+  simp [reqStore, Hdr.put, Hdr.put64, Hdr.get, Hdr.get64, Hdr.zero, Gen.hdrWords, List.replicate, Gen.wOpcode, Gen.opStore, Gen.wSize,
+    Gen.wStoreKeyLen, Gen.wStoreDataLen, Gen.wStoreTriggersLen, Gen.wStoreTimeout, u32, hk, hv, ht]
+  have := toU64_lt d
+  omega
+
 theorem tcpStore_eq (s : State) (now : Time) (k v : Bytes) (trigs : List Key) (d : Time)
     (hsz : k.length + v.length + (trigBytes (sortSet trigs)).length < 2147483648)
     (hd : -9223372036854775808 ≤ d ∧ d < 9223372036854775808) :
     tcpStore s now k v trigs d = aStore s now k v trigs d := by
-  have hk : k.length % u32 = k.length := Nat.mod_eq_of_lt (by unfold u32; omega)
-  have hv : v.length % u32 = v.length := Nat.mod_eq_of_lt (by unfold u32; omega)
-  have ht : (trigBytes (sortSet trigs)).length % u32 = (trigBytes (sortSet trigs)).length := Nat.mod_eq_of_lt (by unfold u32; omega)
-  have hall : (k ++ v ++ trigBytes (sortSet trigs)).length % u32 = (k ++ v ++ trigBytes (sortSet trigs)).length :=
-    Nat.mod_eq_of_lt (by simp only [List.length_append]; unfold u32; omega)
+  obtain ⟨f1, f2, f3, f4, f5, f6, f7⟩ := reqStore_fields k v trigs d (by omega)
   unfold tcpStore
-  rw [reqStore_eq]
-  simp only [transmit, srvHandle, Hdr.get, List.getD_cons_zero, List.getD_cons_succ, Gen.wSize, Gen.wOpcode, Gen.opFetch, Gen.opRise, Gen.opClear, Gen.opStore]
-  simp only [hall, List.take_length]
+  rcases hreq : reqStore k v trigs d with ⟨h, data⟩
+  rw [hreq] at f1 f2 f3 f4 f5 f6 f7
+  simp only at f1 f2 f3 f4 f5 f6 f7
+  subst f1
+  simp only [transmit, srvHandle, f2, f3, List.take_length, Gen.opStore, Gen.opFetch, Gen.opRise, Gen.opClear]
   rw [if_neg (by decide), if_neg (by decide), if_neg (by decide), if_pos trivial]
-  simp only [srvStore, Hdr.get, Hdr.get64, List.getD_cons_zero, List.getD_cons_succ, Gen.wStoreKeyLen, Gen.wStoreDataLen,
-    Gen.wStoreTriggersLen, Gen.wSize, Gen.wStoreTimeout, hk, hv, ht, join64 _ (toU64_lt d), ofI64_toU64 d hd]
+  simp only [srvStore, f3, f4, f5, f6, f7, ofI64_toU64 d hd]
   have hbad : Gen.storeBad k.length v.length (trigBytes (sortSet trigs)).length (k ++ v ++ trigBytes (sortSet trigs)).length
       = decide (k = []) := by
     simp only [Gen.storeBad, Gen.storeLenSum, List.length_append]
